@@ -918,6 +918,7 @@ func checkC32Sites(c *Ctx, r *Report) {
 	// gateway: the handler field used as client ID is assigned from Connect.ClientID only
 	for fld := range idFields {
 		n, okAll := 0, true
+		idCell := ""
 		for _, f := range c.repoFuncs("gateway") {
 			allInstrs(f, func(i ssa.Instruction) {
 				st, ok := i.(*ssa.Store)
@@ -929,10 +930,40 @@ func checkC32Sites(c *Ctx, r *Report) {
 					return
 				}
 				n++
+				idCell = fieldCell(fa)
 				if !c.valueIsField(st.Val, pkPackets1, "Connect", "ClientID") {
 					okAll = false
 				}
 			})
+		}
+		// ... and only by a CONNECT that starts a connect exchange: a refused CONNECT (protocol, zero keep-alive) or
+		// one answered by the handler itself (client returning from sleep) must leave the identity of the
+		// established session untouched
+		if m, err := c.newGwModel(); err == nil && idCell != "" {
+			for _, st := range []int64{0, 1, 2, 3} {
+				okc, detail, nOut := true, "", 0
+				for _, dur := range []int64{0, 60} {
+					for _, proto := range []int64{1, 2} {
+						for _, tx := range []string{"none", c.gwConnectTx()} {
+							cells := map[string]aval{"state": kint(st), "type:sn": kstr("*packets1.Connect"), "f:packets1.Connect.Duration": kint(dur), "f:packets1.Connect.ProtocolID": kint(proto), "type:tx": kstr(tx)}
+							outs, _ := m.run(m.snDisp, cells)
+							nOut += len(outs)
+							for _, o := range outs {
+								if hasEventPrefix(o, "set "+idCell+"=") && !hasEventPrefix(o, "store.StoreByType") {
+									okc = false
+									detail = fmt.Sprintf("a CONNECT (keep-alive %d, protocol %d) that starts no connect exchange - refused, or answered by the handler itself - still replaces the identity used for predefined lookups: the session goes on with the broker under the old client ID while names and IDs are resolved for another one: %s", dur, proto, strings.Join(o.Events, " ; "))
+								}
+							}
+						}
+					}
+				}
+				key := "gateway:" + fld + "-written-only-by-a-CONNECT-that-starts-an-exchange/" + stateNames[st]
+				if nOut == 0 {
+					r.undecided("R2", key, "-", "CONNECT case not explored")
+				} else {
+					r.cond(okc, "R2", key, c.pos(m.snDisp.Pos()), fmt.Sprintf("%d outcomes: the identity is set only together with a new connect exchange", nOut), detail)
+				}
+			}
 		}
 		r.cond(n > 0 && okAll, "R2", "gateway:"+fld+"<-CONNECT.ClientID", "-", fmt.Sprintf("the gateway's lookup identity is the CONNECT's ClientID (%d assignment(s))", n), "the identity the gateway uses for predefined lookups is not (only) the ClientID of the client's CONNECT")
 	}
